@@ -101,6 +101,9 @@ func writePrim(w restlicodec.Writer, p Prim, v *V) {
 	}
 }
 
+// classifyEnc / classifyDec name an error by its TYPE only. The library gives no type to "union
+// without a member", "fixed of the wrong size" or a syntax error (they are fmt.Errorf values), and
+// no property speaks about the wording of a message: all of those are "other".
 func classifyEnc(err error) string {
 	var ie *restli.IllegalEnumConstant
 	var it illTyped
@@ -109,10 +112,8 @@ func classifyEnc(err error) string {
 		return "enum"
 	case errors.As(err, &it):
 		return "illtyped"
-	case strings.Contains(err.Error(), "union member"):
-		return "union"
 	}
-	return "other " + hx.Hex([]byte(err.Error()))
+	return "other"
 }
 
 func readerFor(f Fmt, data []byte, excl []string, ignore int) (restlicodec.Reader, error) {
@@ -171,7 +172,7 @@ func (b *Bridge) decode1(f Fmt, t Ty, data []byte, excl []string, ignore int) st
 	panicked, pv := hx.Recover(func() {
 		r, err := readerFor(f, data, excl, ignore)
 		if err != nil {
-			outcome = "err syntax"
+			outcome = "err other"
 			return
 		}
 		var got *V
@@ -242,10 +243,6 @@ func classifyDec(err error, got *V) string {
 		return "err missing (" + strings.Join(hs, " ") + ") " + got.Canon()
 	case errors.As(inner, &ee):
 		return "err excluded " + hx.Hex([]byte(string(ee)))
-	case strings.Contains(inner.Error(), "union member"):
-		return "err union"
-	case strings.Contains(inner.Error(), "must be exactly"):
-		return "err fixed"
 	}
-	return "err syntax"
+	return "err other"
 }
